@@ -39,7 +39,7 @@ def rs(chunks, tail="e"):
     """read script tokens from a list of chunk octet strings / 'p' markers"""
     toks = []
     for c in chunks:
-        toks.append("p" if c == "p" else "c:" + bytes(c).hex())
+        toks.append(c if isinstance(c, str) else "c:" + bytes(c).hex())
     if tail:
         toks.append(tail)
     return f"{len(toks)} " + " ".join(toks)
@@ -48,7 +48,7 @@ def rs(chunks, tail="e"):
 def ws(items):
     toks = []
     for x in items:
-        toks.append(x if x in ("p", "x") else "a:%x" % x)
+        toks.append(x if isinstance(x, str) else "a:%x" % x)
     return f"{len(toks)}" + "".join(" " + t for t in toks)
 
 
@@ -60,6 +60,9 @@ def random_chunking(r, s, pend=True):
         i += n
         if pend and r.chance(1, 3):
             out.extend(["p"] * r.choice([1, 1, 2, 3]))
+        elif pend and r.chance(1, 6):
+            # a pause measured in (virtual) time: "not ready yet" for a while
+            out.append("t:%x" % r.choice([1, 999, 1000, 2000, 29000, 30000, 30001, 31000, 59000, 60000, 120000, 3600000]))
     return out
 
 
